@@ -36,12 +36,14 @@ def run(ctx):
             # reference / folder vs the model
         # correspondence of addObject itself on fresh objects
         par = OpenDocumentText(); par.folder = ctx.rng.choice(['', '/Object 3', '/X y'])
-        for _ in range(ctx.rng.randint(0, 2)): par.childobjects.append(OpenDocumentChart())
-        nm = ctx.rng.choice([None, None, 'Name', '/Slashed', 'Object 12', ''])
-        ch = OpenDocumentChart(); nb = len(par.childobjects)
+        # siblings with folders of every kind: numbered as a loaded package may have them, named by a caller, default ones
+        for _ in range(ctx.rng.randint(0, 4)):
+            k_ = OpenDocumentChart(); k_.folder = ctx.rng.choice([par.folder + '/Object %d' % ctx.rng.randint(1, 6), '/Name', par.folder + '/Object 2', par.folder + '/Object 3']); par.childobjects.append(k_)
+        nm = ctx.rng.choice([None, None, None, 'Name', '/Slashed', 'Object 12', ''])
+        ch = OpenDocumentChart(); taken = [k_.folder for k_ in par.childobjects]
         ref = par.addObject(ch, nm)
-        m = d.call('pkg_addobject', sx_str(par.folder), str(nb), 'None' if nm is None else '(Some %s)' % sx_str(nm))
-        ctx.corr('addObject folder/reference', {'parent_folder': par.folder, 'kids_before': nb, 'name': nm}, [sx_to_pystr(m[0]), sx_to_pystr(m[1])], [ch.folder, ref])
+        m = d.call('pkg_addobject', sx_str(par.folder), '(' + ' '.join(sx_str(t_) for t_ in taken) + ')', 'None' if nm is None else '(Some %s)' % sx_str(nm))
+        ctx.corr('addObject folder/reference', {'parent_folder': par.folder, 'sibling_folders': taken, 'name': nm}, [sx_to_pystr(m[0]), sx_to_pystr(m[1])], [ch.folder, ref])
         try: data = h.save()
         except Exception as e:
             ctx.oracle_cases += 1
@@ -66,6 +68,39 @@ def run(ctx):
                     ctx.violation('object-picture-not-in-its-folder', dict(case, object=k, picture=nm_), sorted(n for n in pk['order'] if nm_ in n), (folder or '') + nm_, {})
         if len(h.docs) > 1: ctx.nt(repr(case))
         if i < 2: ctx.sample(case)
+    # ---- every attached object has a folder of its own ---------------------------------------------
+    def distinct(label, parent, case):
+        ctx.oracle_cases += 1
+        folders = [k.folder for k in parent.childobjects]
+        if len(set(folders)) != len(folders):
+            ctx.violation('two-objects-one-folder', dict(case, how=label), folders, 'a folder of its own for every attached object', {'how': label})
+        b = io.BytesIO()
+        import warnings
+        with warnings.catch_warnings():
+            warnings.simplefilter('ignore')
+            try: parent.write(b)
+            except Exception as e:
+                ctx.violation('save-raised', dict(case, how=label), repr(e)[:200], 'a package', {'exception': type(e).__name__}); return
+        names = P.read_package(b.getvalue())['order']
+        dups = sorted(set(n for n in names if names.count(n) > 1))
+        if dups: ctx.violation('member-name-twice', dict(case, how=label), dups[:4], 'each member once', {'how': label})
+    for explicit in ('Object 1', 'Object 2', 'Object 3', '/Object 2'):
+        for before in (0, 1, 2):
+            if int(explicit[-1]) <= before: continue          # (a name the caller gives twice is the caller's error, like a node put into itself)
+            par = OpenDocumentText(); marker(par, 'P')
+            for _ in range(before): par.addObject(OpenDocumentChart())
+            par.addObject(OpenDocumentSpreadsheet(), explicit)
+            r1 = par.addObject(OpenDocumentChart()); r2 = par.addObject(OpenDocumentChart())
+            distinct('an explicit name that looks like a default one, then default names', par, {'explicit': explicit, 'objects_before': before, 'then': [r1, r2]})
+    par = OpenDocumentText(); sub = OpenDocumentChart(); ra = par.addObject(sub); rb = par.addObject(sub)
+    distinct('the same sub-document attached twice', par, {'references': [ra, rb]})
+    for nums in ([2], [3, 7], [1, 3], [2, 1]):
+        c = lambda n: P.content_xml('<text:p>OBJ-%d</text:p>' % n); s_ = P.styles_xml()
+        members = [('content.xml', P.content_xml(''.join('<text:p><draw:frame><draw:object xlink:href="./Object %d"/></draw:frame></text:p>' % n for n in nums)), 'text/xml'), ('styles.xml', s_, 'text/xml')]
+        for n in nums: members += [('Object %d/' % n, '', C03.MIMEC), ('Object %d/content.xml' % n, c(n), 'text/xml'), ('Object %d/styles.xml' % n, s_, 'text/xml')]
+        doc = load(io.BytesIO(P.make_package(members)))
+        r = doc.addObject(OpenDocumentChart())
+        distinct('a loaded package, then addObject', doc, {'loaded_object_numbers': nums, 'new_reference': r})
     # ---- loaded packages ---------------------------------------------------------------------------
     for i in range(40 if ctx.quick else 600):
         nums = ctx.rng.sample([1, 2, 3, 5, 7, 10, 12, 42, 100, 2024], ctx.rng.randint(1, 4))
